@@ -29,6 +29,7 @@ type OutCase struct {
 	Session string     `json:"session"`
 	Status  string     `json:"status"`
 	ReqID   string     `json:"reqID"`
+	Resign  bool       `json:"resign,omitempty"` // with Direct: the document handed to Sign* is the SIGNED one (signed again); the new signature, placed after the Issuer, must verify
 	Direct  bool       `json:"direct,omitempty"` // signed by calling the exported SignAuthnRequest / SignLogoutRequest / SignLogoutResponse on the unsigned document's root
 }
 
@@ -203,6 +204,7 @@ func genOutCase(t *rapid.T, forceSigned bool) OutCase {
 	}
 	c.Signed = hasKey && (forceSigned || rapid.Bool().Draw(t, "signed"))
 	c.Direct = c.Signed && c.Kind != "authn-str" && rapid.IntRange(0, 3).Draw(t, "directSign") == 0
+	c.Resign = c.Direct && rapid.IntRange(0, 2).Draw(t, "resign") == 0
 	if c.Signed && strings.HasPrefix(c.Kind, "authn") {
 		c.SP.SignRequests = true
 	}
@@ -223,7 +225,11 @@ func (c *OutCase) produce() (string, *saml2.SAMLServiceProvider, error) {
 		return s, sp, err
 	case "authn-doc":
 		if c.Signed && c.Direct {
-			doc, err = signDirect(sp.BuildAuthRequestDocumentNoSig, sp.SignAuthnRequest)
+			build := sp.BuildAuthRequestDocumentNoSig
+			if c.Resign {
+				build = sp.BuildAuthRequestDocument
+			}
+			doc, err = signDirect(build, sp.SignAuthnRequest)
 		} else if c.Signed {
 			doc, err = sp.BuildAuthRequestDocument()
 		} else {
@@ -231,7 +237,12 @@ func (c *OutCase) produce() (string, *saml2.SAMLServiceProvider, error) {
 		}
 	case "logout-req":
 		if c.Signed && c.Direct {
-			doc, err = signDirect(func() (*etree.Document, error) { return sp.BuildLogoutRequestDocumentNoSig(c.NameID, c.Session) }, sp.SignLogoutRequest)
+			doc, err = signDirect(func() (*etree.Document, error) {
+				if c.Resign {
+					return sp.BuildLogoutRequestDocument(c.NameID, c.Session)
+				}
+				return sp.BuildLogoutRequestDocumentNoSig(c.NameID, c.Session)
+			}, sp.SignLogoutRequest)
 		} else if c.Signed {
 			doc, err = sp.BuildLogoutRequestDocument(c.NameID, c.Session)
 		} else {
@@ -239,7 +250,12 @@ func (c *OutCase) produce() (string, *saml2.SAMLServiceProvider, error) {
 		}
 	case "logout-resp":
 		if c.Signed && c.Direct {
-			doc, err = signDirect(func() (*etree.Document, error) { return sp.BuildLogoutResponseDocumentNoSig(c.Status, c.ReqID) }, sp.SignLogoutResponse)
+			doc, err = signDirect(func() (*etree.Document, error) {
+				if c.Resign {
+					return sp.BuildLogoutResponseDocument(c.Status, c.ReqID)
+				}
+				return sp.BuildLogoutResponseDocumentNoSig(c.Status, c.ReqID)
+			}, sp.SignLogoutResponse)
 		} else if c.Signed {
 			doc, err = sp.BuildLogoutResponseDocument(c.Status, c.ReqID)
 		} else {
@@ -396,8 +412,13 @@ func checkC13(c OutCase) h.Outcome {
 		return o
 	}
 	f := h.InspectSignature(doc.Root(), want.X509(), dsig.NewFakeClockAt(time.Date(2030, 1, 1, 0, 0, 0, 0, time.UTC)))
-	if f.Count != 1 {
-		o.Violation = h.V("signature-count", "%d Signature elements in a signed %s", f.Count, c.Kind)
+	wantCount := 1
+	if c.Resign {
+		wantCount = 2 // the earlier signature stays where it was, behind the new one, and is covered by the new digest
+		o.Classes = append(o.Classes, "re-signed")
+	}
+	if f.Count != wantCount {
+		o.Violation = h.V("signature-count", "%d Signature elements in a signed %s (expected %d)", f.Count, c.Kind, wantCount)
 		return o
 	}
 	if f.Index != 1 || f.PrevTag != "Issuer" {
@@ -527,6 +548,7 @@ func fmtInstant(t time.Time) string {
 }
 
 func checkC15(c OutCase) h.Outcome {
+	c.Resign = false // a second signature is C13's business
 	o := h.Outcome{Classes: c.classes()}
 	cr, aws, interesting := c.charClasses()
 	o.NonTrivial = interesting || c.SP.NowOffset != 0 || c.SP.ForceAuthn || c.SP.IsPassive || c.SP.RAC != nil || c.SP.SPIssuer == ""
